@@ -60,6 +60,29 @@ func gen(tier string, rng *h.Rng, emit func(string)) {
 	emit(dispatchLine("sc", "sc", "s", "ctx", "f2,f0,f1,go,x,r", 1, false, 60))
 	emit(dispatchLine("c", "sc", "-", "ctx", "f0,f1,go,r", 1, false, 8))
 	emit(dispatchLine("sc", "c", "-", "ctx", "f0,f1,go,x,r", 1, false, 60))
+	// full pipelines through their real entry points
+	emit("full p=grouping n=3 fault=none cancel=never reps=2")
+	emit("full p=query.sys role=submitter bt=1 peers=1 reps=3")
+	emit("full p=query.sys role=member bt=1 peers=0 reps=3")
+	emit("full p=query.sys role=submitter bt=0 peers=1 reps=20")
+	emit("full p=query.user role=submitter bt=1 peers=2 reps=3")
+	emit("full p=query.user role=member bt=0 peers=1 reps=10")
+	faults := []string{"none", "silent:2", "silent:0", "dropdeal:1", "dropresp:2", "loseack:0"}
+	k := 4
+	if tier == "thorough" {
+		k = 40
+	}
+	for i := 0; i < k; i++ {
+		emit(fmt.Sprintf("full p=grouping n=3 fault=%s cancel=ev%d reps=2", faults[rng.Intn(len(faults))], 1+rng.Intn(30)))
+	}
+	if tier == "thorough" {
+		for ev := 1; ev <= 24; ev++ {
+			emit(fmt.Sprintf("full p=grouping n=3 fault=none cancel=ev%d reps=2", ev))
+		}
+		for _, f := range faults[1:] {
+			emit(fmt.Sprintf("full p=grouping n=3 fault=%s cancel=never reps=1", f))
+		}
+	}
 	dctl := []string{"f2,f0,f1,go,r", "f0,f1,go,f2,r", "f0,go,x,f1,r", "f2,f0,go,f1,x,r", "f0,f1,x,go,f2,r", "go,f0,x,f1,f2,r"}
 	m := 4
 	if tier == "thorough" {
